@@ -46,6 +46,11 @@ TYS = {
     "gen_inner": ("Gen<Inner>", ["Gen { g: Inner::v1(), o: Some(Inner::v2()) }"], True, True, False),
     "pair": ("Pair<String>", ['Pair { a: "a".to_string(), b: vec![1] }'], True, True, False),
     "range": ("std::ops::Range<i32>", ["1..3"], False, False, False),
+    # deeper nesting (user types in containers in generics in user types) and a self-referential type
+    "deep": ("Deep", ["Deep::v1()", "Deep::default()"], True, True, False),
+    "vec_deep": ("Vec<Gen<Deep>>", ["vec![Gen { g: Deep::v1(), o: Some(Deep::default()) }]", "vec![]"], True, False, False),
+    "tree": ("Tree", ["Tree::v1()", "Tree::default()"], True, True, False),
+    "opt_tree": ("Option<Box<Tree>>", ["Some(Box::new(Tree::v1()))", "None"], True, False, True),
 }
 
 # ---- generic programs: a program may take one type parameter T, instantiated at one argument; its fields
